@@ -72,6 +72,15 @@ def worker(ctx, job):
                     res["transitions"] += 1
                     res["distinct"].add(V.h(flavour, algo, n, dname, name, dstate, keystate))
                     after = damage.read_dest(dest)
+                    if after is None and rk == "copy" and is_checked and "err" in rep and not name.endswith("_sync") and klass not in ("pristine", "missing", "symlink-identical"):
+                        # an async copy that was started before verification finished cannot be cancelled: it may
+                        # still materialise after the call returned
+                        import time as _t
+                        for _ in range(6):
+                            _t.sleep(0.005)
+                            after = damage.read_dest(dest)
+                            if after is not None:
+                                break
                     case = {"flavour": flavour, "algo": algo, "n": n, "content": dname, "entry": name, "dest": dstate, "key": keystate}
                     sig = "extract:%s:%s:dest=%s:key=%s" % (name, klass, dstate, keystate)
                     cls = classify(rep)
